@@ -1,7 +1,14 @@
 #!/bin/bash
-# tools/seedall.sh [jobs] — re-validates every stored seeded change against the current /repo HEAD (scratch worktrees
-# under /tmp, removed afterwards) and regenerates seeded/README.md
+# tools/seedall.sh [regex] — re-validates stored seeded changes (default: all) against the current /repo HEAD, one at a
+# time (checks with different VERIF_REPO share generated Coq files), and regenerates seeded/README.md
 cd /verif
-J=${1:-4}
-ls seeded | grep -E '^C[0-9]+_[a-z]$' | sed 's/_/ /' | xargs -P $J -L 1 sh -c 'python3 tools/seedcheck.py $0 $1 > build/seedall_$0_$1.log 2>&1'
-python3 tools/seedtable.py
+RE=${1:-.}
+for d in $(ls seeded | grep -E '^C[0-9]+_[a-z]$' | grep -E "$RE"); do
+  p=${d%_*}; v=${d#*_}
+  python3 tools/seedcheck.py $p $v > build/seedall_${p}_$v.log 2>&1
+  echo "$d $(python3 -c "
+import json;m=json.load(open('seeded/$d/meta.json'))
+oc=m.get('our_checks',{})
+print('applies',m.get('patch_applies'),'demo',m.get('demo_confirms'),{k:(v['exit'],len([l for l in v['lines'] if l.startswith('VIOLATION') and 'no-failing' not in l])) for k,v in oc.items()})")" >> build/seedall_summary.txt
+done
+python3 tools/seedtable.py >> build/seedall_summary.txt
